@@ -86,7 +86,7 @@ Print Assumptions C12_non_library_error_escapes.
 (* data-level decoder: it reads from the front, and what follows the bits it  *)
 (* consumed does not influence it — C12_decode_suffix_independent)            *)
 (* ======================================================================== *)
-From PBK Require Import Frame FrameProofs FrameRoundtrip FrameExamples FramePrefix.
+From PBK Require Import Frame FrameProofs FrameRoundtrip FrameExamples FramePrefix FramePrefixEnc.
 
 (* bytes that follow a message never influence its decoding: whatever is
    appended, the decoder returns the SAME message record — same sections
@@ -117,3 +117,123 @@ Example C12_message_trailing_bytes_nonvacuous :
   decode_message stub_dd (Some sig_BUFR) false false (ex_bytes ++ [66; 85; 70; 82; 0; 0; 9]%N)
     = decode_message stub_dd (Some sig_BUFR) false false ex_bytes.
 Proof. repeat split; vm_compute; reflexivity. Qed.
+
+(* ---- truncation ------------------------------------------------------------- *)
+(* [cuts f]: whenever the reader operation f succeeds on a stream R consuming the
+   prefix e, then on EVERY truncation firstn k R it returns the same value (and
+   the truncated rest) when e fits, and fails with a LIBRARY error otherwise.
+   Assumed of the template decoder (a read past the end is BitReadError:
+   C12_read_past_end_uint / _bytes); proved of every bit-reader primitive, of the parameter
+   loop, of decode_section, of the section loop (FramePrefix.v). *)
+
+(* THE cut theorem: for ANY input s that decodes to m (not only encoder output;
+   full or metadata-only; any signature; with or without value expectations)
+   and EVERY k: the first k octets of s decode to the SAME message when they
+   still hold the signature and every bit that was consumed
+   [holds_message: sig_index + |sig| <= k  and  8*sig_index + consumed bits <= 8*k],
+   and fail with a library error otherwise.  No truncation point has any other
+   outcome — in particular none yields a different message or a non-library error. *)
+Theorem C12_message_cut :
+  forall (decode_data : list (pname * pvalue) -> reader -> result (bits * reader)),
+  (forall p, cuts (decode_data p)) ->
+  forall sig info ign s m,
+  decode_message decode_data sig info ign s = Ok m ->
+  forall k,
+    if holds_message sig s m k
+    then decode_message decode_data sig info ign (firstn k s) = Ok m
+    else lib_fail (decode_message decode_data sig info ign (firstn k s)).
+Proof. exact message_cut. Qed.
+Print Assumptions C12_message_cut.
+
+(* No proper prefix of a valid message decodes successfully, and the failure is
+   the library's own error type: every message the encoder produces (editions as
+   encoded, section 2 present or not, lengths recomputed or honoured; the
+   hypotheses of C04_frame_roundtrip), EVERY truncation point k < |message|.
+   [lib_fail x] = exists e, x = Err e /\ is_lib_err e = true. *)
+Theorem C12_encoded_prefix_fails :
+  forall (decode_data : list (pname * pvalue) -> reader -> result (bits * reader)),
+  (forall p r b r', decode_data p r = Ok (b, r') -> r = b ++ r') ->
+  (forall p r b r' s, decode_data p r = Ok (b, r') -> decode_data p (r ++ s) = Ok (b, r' ++ s)) ->
+  (forall p, cuts (decode_data p)) ->
+  forall ign json m k,
+  encode_message ign json = Ok m ->
+  Forall sec_fits (m_sections m) -> Forall desc_fill_ok (m_sections m) ->
+  data_ok decode_data [] (m_sections m) ->
+  (k < length (m_bytes m))%nat ->
+  lib_fail (decode_message decode_data (Some sig_BUFR) false false (firstn k (m_bytes m))).
+Proof. exact encoded_prefix_fails. Qed.
+Print Assumptions C12_encoded_prefix_fails.
+
+(* Metadata-only decoding skips to the declared end of section 4 and never looks
+   at section 5.  Exact bound: it succeeds — with one and the same result, which
+   consumed all but the last four octets — on exactly the prefixes of length
+   >= |message| - 4 and fails with a library error on every shorter one (a cut
+   inside the data section's CONTENT fails too: the skip to the section's
+   declared end is a read). *)
+Theorem C12_encoded_info_prefix :
+  forall (decode_data : list (pname * pvalue) -> reader -> result (bits * reader)),
+  (forall p r b r', decode_data p r = Ok (b, r') -> r = b ++ r') ->
+  (forall p r b r' s, decode_data p r = Ok (b, r') -> decode_data p (r ++ s) = Ok (b, r' ++ s)) ->
+  (forall p, cuts (decode_data p)) ->
+  forall ign json m,
+  encode_message ign json = Ok m ->
+  Forall sec_fits (m_sections m) -> Forall desc_fill_ok (m_sections m) ->
+  data_ok decode_data [] (m_sections m) ->
+  exists mi,
+    decode_message decode_data (Some sig_BUFR) true false (m_bytes m) = Ok mi /\
+    sections_nbits (m_sections mi) = (8 * (length (m_bytes m) - 4))%nat /\
+    forall k,
+      ((length (m_bytes m) - 4 <= k)%nat ->
+         decode_message decode_data (Some sig_BUFR) true false (firstn k (m_bytes m)) = Ok mi) /\
+      ((k < length (m_bytes m) - 4)%nat ->
+         lib_fail (decode_message decode_data (Some sig_BUFR) true false (firstn k (m_bytes m)))).
+Proof. exact encoded_info_prefix. Qed.
+Print Assumptions C12_encoded_info_prefix.
+
+(* the same with every hypothesis discharged or executable: the template-decoder
+   stub of the correspondence runs (templates of 031031 only) *)
+Theorem C12_message_cut_stub : forall sig info ign s m,
+  decode_message stub_dd sig info ign s = Ok m ->
+  forall k,
+    if holds_message sig s m k
+    then decode_message stub_dd sig info ign (firstn k s) = Ok m
+    else lib_fail (decode_message stub_dd sig info ign (firstn k s)).
+Proof. exact message_cut_stub. Qed.
+Print Assumptions C12_message_cut_stub.
+
+Theorem C12_encoded_prefix_fails_stub : forall ign json m k,
+  encode_message ign json = Ok m ->
+  forallb sec_fitsb (m_sections m) = true -> forallb desc_fill_okb (m_sections m) = true ->
+  data_okb stub_dd [] (m_sections m) = true ->
+  (k < length (m_bytes m))%nat ->
+  lib_fail (decode_message stub_dd (Some sig_BUFR) false false (firstn k (m_bytes m))).
+Proof. exact encoded_prefix_fails_stub. Qed.
+Print Assumptions C12_encoded_prefix_fails_stub.
+
+Theorem C12_encoded_info_prefix_stub : forall ign json m,
+  encode_message ign json = Ok m ->
+  forallb sec_fitsb (m_sections m) = true -> forallb desc_fill_okb (m_sections m) = true ->
+  data_okb stub_dd [] (m_sections m) = true ->
+  exists mi,
+    decode_message stub_dd (Some sig_BUFR) true false (m_bytes m) = Ok mi /\
+    sections_nbits (m_sections mi) = (8 * (length (m_bytes m) - 4))%nat /\
+    forall k,
+      ((length (m_bytes m) - 4 <= k)%nat ->
+         decode_message stub_dd (Some sig_BUFR) true false (firstn k (m_bytes m)) = Ok mi) /\
+      ((k < length (m_bytes m) - 4)%nat ->
+         lib_fail (decode_message stub_dd (Some sig_BUFR) true false (firstn k (m_bytes m)))).
+Proof. exact encoded_info_prefix_stub. Qed.
+Print Assumptions C12_encoded_info_prefix_stub.
+
+(* non-vacuity: three concrete messages (edition 3 with section 2, edition 4
+   without, edition 2 with) satisfy the executable hypotheses; they decode; every
+   one of their proper prefixes fails with a library error (computed, all k);
+   metadata-only: every k < |m| - 4 fails with a library error, every k >= |m| - 4
+   succeeds *)
+Example C12_truncation_nonvacuous :
+  ex_hyps (ex_json 0 0 0 0) = true /\ ex_hyps ex4_json = true /\ ex_hyps ex2_json = true /\
+  ex_all_prefixes_fail (ex_json 0 0 0 0) = true /\ ex_all_prefixes_fail ex4_json = true /\
+  ex_all_prefixes_fail ex2_json = true /\
+  ex_info_prefixes (ex_json 0 0 0 0) = true /\ ex_info_prefixes ex4_json = true /\
+  ex_info_prefixes ex2_json = true.
+Proof. exact truncation_nonvacuous. Qed.
